@@ -502,13 +502,16 @@ func (a *Scale) markData(fn *ssa.Function) {
 }
 
 func containerRole(v ssa.Value) string {
-	return containerRole1(v, map[ssa.Value]bool{})
+	if r := containerRole1(v, map[ssa.Value]bool{}); r != "" {
+		return r
+	}
+	return "local"
 }
 
 func containerRole1(v ssa.Value, seen map[ssa.Value]bool) string {
 	for depth := 0; depth < 20; depth++ {
 		if seen[v] {
-			return "local"
+			return "" // a merge reached again through its own back edge (words = append(words, 0) in a loop) adds nothing
 		}
 		switch x := v.(type) {
 		case *ssa.Parameter:
@@ -546,6 +549,9 @@ func containerRole1(v ssa.Value, seen map[ssa.Value]bool) string {
 			role := ""
 			for _, e := range x.Edges {
 				r := containerRole1(e, seen)
+				if r == "" {
+					continue
+				}
 				if role == "" {
 					role = r
 				} else if role != r {
